@@ -175,3 +175,40 @@ Theorem C01_declaration_without_extras : forall T fo ds,
   Decl.declared_full T fo Decl.no_extras ds = (None, Decl.declared T (Decl.fo_base fo) ds).
 Proof. exact DeclProofs.declared_full_no_extras. Qed.
 Print Assumptions C01_declaration_without_extras.
+
+(* ---------- "nothing unreachable is present" is FALSE for the registry stage (finding F-C01a) ----------
+   With embedded module info the dependencies of a package file are followed before its content
+   arrives; when the content load then fails the file's entry becomes an error entry (no
+   dependencies) and what was reached only through it stays in the graph.  Witness: jsr:@s/a@1 (1)
+   -> mod.ts (2) whose embedded info imports dep.ts (3); the cache-only probe of mod.ts misses and
+   its content load finds nothing.  Under the relaxation "an error entry of a package file still
+   counts the dependencies its embedded info declared" nothing is unreachable - that relaxation is
+   the known class the per-case judgement uses. *)
+From DG Require Model.RunJsr.
+
+Definition c01j_world : Jsr.jworld :=
+  {| Jsr.jw_cls := [(1, Jsr.CJsr 1 1 1); (2, Jsr.CFile 1 1 1); (3, Jsr.CFile 1 1 2)];
+     Jsr.jw_use := [(3, Jsr.JModule 3 {| Jsr.jm_hash := 11; Jsr.jm_ok := true; Jsr.jm_decl := false; Jsr.jm_deps := [] |})];
+     Jsr.jw_only := [];
+     Jsr.jw_pkgs := [(1, {| Jsr.p_url := 4; Jsr.p_use := Jsr.POk [(1, false)]; Jsr.p_reload := Jsr.POk [(1, false)] |})];
+     Jsr.jw_vers := [((1, 1), {| Jsr.v_url := 5; Jsr.v_base := 6;
+                                  Jsr.v_meta := Jsr.VOk {| Jsr.vi_hash := 9; Jsr.vi_lockfile_checksum := None;
+                                                           Jsr.vi_exports := [(1, 2)];
+                                                           Jsr.vi_manifest := [(1, Jsr.MSha 7); (2, Jsr.MSha 11)];
+                                                           Jsr.vi_modinfo := [(1, [{| Jsr.jd_target := 3; Jsr.jd_range := 20; Jsr.jd_dyn := false |}])] |};
+                                  Jsr.v_cached := false |})];
+     Jsr.jw_match := [(1, [1])]; Jsr.jw_lock_pkg := None; Jsr.jw_lock_remote := []; Jsr.jw_http := [2; 3];
+     Jsr.jw_missing_chk := 8; Jsr.jw_max_redirects := 10 |}.
+
+Theorem C01_registry_sound_refuted :
+  exists W o roots g,
+    Jsr.wf_jworld W = true /\ RunJsr.noalias_jworld W = true /\ Jsr.jbuild W o roots = Some g /\
+    lookup 2 (Jsr.jg_slots g) = Some (Jsr.JsErr {| Jsr.je_kind := Jsr.EMissing; Jsr.je_spec := 2; Jsr.je_ref := None |}) /\
+    lookup 3 (Jsr.jg_slots g) = Some (Jsr.JsMod 11 []) /\
+    RunJsr.orphan_free W g roots false = false /\ RunJsr.orphan_free W g roots true = true.
+Proof.
+  exists c01j_world, {| Jsr.jo_prefer_cached := false |}, [1].
+  destruct (Jsr.jbuild c01j_world {| Jsr.jo_prefer_cached := false |} [1]) as [g|] eqn:E; [|vm_compute in E; discriminate].
+  exists g. vm_compute in E. inversion E; subst. vm_compute. repeat split; reflexivity.
+Qed.
+Print Assumptions C01_registry_sound_refuted.
